@@ -309,6 +309,17 @@ class MergeMonitor(Handler):
             if valid_amount and minf is None and not _run_crosses_gap(pre, int(amount), ax):
                 rec.fail(prop="C10", monitor="C10.merge.refusal", op=op, symptom=f"valid merge refused: {type(call.exc).__name__}", diff=["raised"],
                          detail={"amount": repr(amount), "axis": ax, "error": str(call.exc)[:160]})
+            # a threshold merge over axes without gaps has nothing to refuse either
+            if amount is None and isinstance(minf, (int, float, np.integer, np.floating)) and not isinstance(minf, bool) and np.isfinite(float(minf)) and float(minf) >= 0:
+                try:
+                    all_bins = [snap.arr_values(t) for t in pre["bins"]] if isinstance(pre["bins"], list) else None
+                    axes_ = range(len(all_bins)) if ax is None else [ax]
+                    gapless = all_bins is not None and all(len(all_bins[i]) >= 1 and np.array_equal(all_bins[i][1:, 0], all_bins[i][:-1, 1]) for i in axes_)
+                except Exception:
+                    gapless = False
+                if gapless:
+                    rec.fail(prop="C10", monitor="C10.merge.refusal", op=op, symptom=f"valid threshold merge (min_frequency) refused: {type(call.exc).__name__}", diff=["raised"],
+                             detail={"min_frequency": repr(minf), "axis": ax, "error": str(call.exc)[:160]})
             return
         if amount is not None and not valid_amount:
             rec.mon("C10.merge.refusal")
